@@ -103,7 +103,7 @@ def compare_final(ctx, prefix, st, got, want, site, extra_new=None):
 
 def run_to(dc, case, limits, with_eo=False):
     s, eo, f = dc.build(case["cfg"], case["comps"], case["ref"])
-    r = dc.run_adaptive(s, eo, 1, case["cfg"]["lmax"], limits["tol"], limits["max"], limits.get("min", 1))
+    r = dc.run_adaptive(s, eo, case["cfg"].get("lmin", 1), case["cfg"]["lmax"], limits["tol"], limits["max"], limits.get("min", 1))
     return (s, r, eo) if with_eo else (s, r)
 
 
@@ -241,7 +241,12 @@ def anchor_cases():
           "opts": {"version": 0, "number_of_refinements_before_extend": 2}}
     base = {"kind": "case", "cfg": es, "comps": [["corner", [1.0, 3.0]]], "ref": None, "final": {"tol": -1.0, "max": 120, "min": 1},
             "interrupt": {"tol": -1.0, "max": 20, "min": 1}, "probe": [[0.3, 0.6], [0.71, 0.12]], "index": 0}
-    return [dict(base, save=False), dict(base, save=True)]
+    # degenerate start levels lmin == lmax in four dimensions, interrupted when some dimensions have had their maximum level raised and others have not (missed seed
+    # C14_a: surplus volumes reset at re-entry only in dimensions with lmax > lmin, so the benefits of a resumed run were no longer scaled by one common factor)
+    dw4 = {"strategy": "dimwise", "a": [0.0] * 4, "b": [1.0] * 4, "norm": "inf", "lmin": 2, "lmax": 2, "grid": {"type": "GlobalTrapezoidal", "boundary": True}, "opts": {}}
+    flat = {"kind": "case", "cfg": dw4, "comps": [["corner", [1.0, 2.0, 3.0, 0.5]]], "ref": None, "final": {"tol": -1.0, "max": 1800, "min": 1},
+            "interrupt": {"tol": -1.0, "max": 750, "min": 1}, "probe": [[0.3, 0.6, 0.2, 0.8], [0.71, 0.12, 0.5, 0.4]], "index": 1, "save": False}
+    return [dict(base, save=False), dict(base, save=True), flat]
 
 
 def run(ctx):
